@@ -220,26 +220,30 @@ static std::string hx(upa::string_view s) { return hx(s.data(), s.length()); }
 // ---------------------------------------------------------------- settrace: which url_setter members a setter invokes
 // A url_setter whose virtual members log the call and forward to the base class; the text of an append is what the
 // string a start_* call returned has gained by the time of the next call.  (Impl/TraceProto.v)
-struct trace_setter : upa::detail::url_setter {
-    explicit trace_setter(upa::url& u) : upa::detail::url_setter(u) {}
+template <class Base>
+struct tracer : Base {
+    explicit tracer(upa::url& u) : Base(u) {}
     std::ostringstream log; std::string* cur = nullptr; std::size_t cur0 = 0;
     void flush() { if (cur) { if (cur->size() >= cur0) log << " a:" << hx(cur->data() + cur0, cur->size() - cur0); else log << " a:SHRUNK"; cur = nullptr; } }
     void track(std::string& s) { cur = &s; cur0 = s.size(); }
-    std::string& start_scheme() override { flush(); std::string& s = url_setter::start_scheme(); log << " ss"; track(s); return s; }
-    void save_scheme() override { flush(); url_setter::save_scheme(); log << " vs"; }
-    std::string& start_part(upa::url::PartType pt) override { if (depth) return url_setter::start_part(pt); flush(); std::string& s = url_setter::start_part(pt); log << " sp" << static_cast<int>(pt); track(s); return s; }
-    void save_part() override { if (depth) { url_setter::save_part(); return; } flush(); url_setter::save_part(); log << " sv"; }
-    void clear_part(upa::url::PartType pt) override { flush(); log << " cl" << static_cast<int>(pt); url_setter::clear_part(pt); }
-    void empty_host() override { flush(); log << " eh"; url_setter::empty_host(); }
+    std::string& start_scheme() override { flush(); std::string& s = Base::start_scheme(); log << " ss"; track(s); return s; }
+    void save_scheme() override { flush(); Base::save_scheme(); log << " vs"; }
+    std::string& start_part(upa::url::PartType pt) override { if (depth) return Base::start_part(pt); flush(); std::string& s = Base::start_part(pt); log << " sp" << static_cast<int>(pt); track(s); return s; }
+    void save_part() override { if (depth) { Base::save_part(); return; } flush(); Base::save_part(); log << " sv"; }
+    void clear_part(upa::url::PartType pt) override { flush(); log << " cl" << static_cast<int>(pt); Base::clear_part(pt); }
+    void empty_host() override { flush(); log << " eh"; Base::empty_host(); }
     // hostStart() is start_part(HOST) and hostDone() begins with save_part() (both virtual): those inner calls are not logged
     int depth = 0;
-    std::string& hostStart() override { flush(); log << " hs"; ++depth; std::string& s = url_setter::hostStart(); --depth; cur = nullptr; track(s); return s; }
-    void hostDone(upa::HostType ht) override { flush(); log << " hd" << static_cast<int>(ht); cur = nullptr; ++depth; url_setter::hostDone(ht); --depth; cur = nullptr; }
-    std::string& start_path_segment() override { flush(); std::string& s = url_setter::start_path_segment(); log << " ps"; track(s); return s; }
-    void save_path_segment() override { flush(); url_setter::save_path_segment(); log << " pv"; }
-    void commit_path() override { flush(); log << " cp"; url_setter::commit_path(); }
-    void shorten_path() override { flush(); log << " sh"; url_setter::shorten_path(); }
+    std::string& hostStart() override { flush(); log << " hs"; ++depth; std::string& s = Base::hostStart(); --depth; cur = nullptr; track(s); return s; }
+    void hostDone(upa::HostType ht) override { flush(); log << " hd" << static_cast<int>(ht); cur = nullptr; ++depth; Base::hostDone(ht); --depth; cur = nullptr; }
+    // url_serializer::start_path_segment() is start_part(PATH) + '/', save_path_segment() is save_part() + counter: inner calls not logged
+    std::string& start_path_segment() override { flush(); ++depth; std::string& s = Base::start_path_segment(); --depth; log << " ps"; track(s); return s; }
+    void save_path_segment() override { flush(); ++depth; Base::save_path_segment(); --depth; log << " pv"; }
+    void commit_path() override { flush(); log << " cp"; Base::commit_path(); }
+    void shorten_path() override { flush(); log << " sh"; Base::shorten_path(); }
 };
+using trace_setter = tracer<upa::detail::url_setter>;
+using trace_serializer = tracer<upa::detail::url_serializer>;
 
 static const int NSLOT = 4;
 static thread_local std::unique_ptr<upa::url> g_url[NSLOT];
@@ -953,6 +957,26 @@ static std::string run_cmd(const std::vector<std::string>& a) {
         const bool same = r0 == r1 && ref.is_valid() == u.is_valid() && (!ref.is_valid() || obs(ref) == obs(u));
         refresh_sp(s);
         return std::string("parse_selfinput same=") + (same ? "1" : "0"); }
+    if (c == "parsetrace") {
+        // parsetrace <url>: the calls a parse without a base makes on its url_serializer (Impl/TraceProto.v: parsetrace_line);
+        // the glue of url::do_parse (new_url, trimming, VALID flag) is repeated here and compared with the real parse (glue=)
+        need(1); Tok tu; if (!parse_tok(a[1], tu) || tu.enc != 'b') return "ERR bad-args";
+        upa::url u, u2;
+        const bool ok2 = u2.parse(tu.s8, nullptr) == upa::validation_errc::ok;
+        if (!ok2) return "parsetrace invalid";
+        if (u2.is_file_scheme() || u2.is_null(upa::url::HOST) || u2.has_opaque_path()) return "parsetrace unsupported";
+        std::string logged;
+        {
+            trace_serializer ts(u);
+            ts.new_url();
+            const char* first = tu.s8.data(); const char* last = first + tu.s8.size();
+            upa::detail::do_trim(first, last);
+            const auto res = upa::detail::url_parser::url_parse(ts, first, last, nullptr);
+            ts.flush(); logged = ts.log.str();
+            if (res == upa::validation_errc::ok) u.set_flag(upa::url::VALID_FLAG);
+        }
+        const bool glue = u.is_valid() && obs(u) == obs(u2) && repr_str(u) == repr_str(u2);
+        return "parsetrace" + logged + " | " + repr_str(u) + " rec=1" + (glue ? "" : " glue=0"); }
     if (c == "settrace") {
         // settrace <setter> <url> <value>: the calls the setter makes on its url_setter (see trace_setter); the setter's own
         // glue code (validity tests, the empty-value branch, the leading '#' / '?') is repeated here and its effect compared
